@@ -233,11 +233,23 @@ func Check(c *Case) (res kit.Result) {
 			}
 		case "appendBig":
 			hd := h.buf.Hdr()
-			if hd.Len%C != 0 {
-				continue
+			// a source that does not fit (by at least one sample); it may end in a partial frame, so
+			// that the grown header's capacity need not be a whole number of frames
+			extra := C*K - hd.Len + 1 + n%(2*C+1)
+			src := kit.AllocAny(c.T, signal.Allocator{Channels: C, Length: 0, Capacity: extra/C + 1})
+			for k := 0; k < extra; k++ {
+				src.AppendSample(kit.IV(int64(1 + k%70)))
 			}
-			src := kit.AnyRoot(c.T, C, K-hd.Length+1+n%3)
 			h.buf.Append(src) // this header moves to new storage; the pooled storage is untouched
+			if extra%C != 0 || hd.Len%C != 0 {
+				res.Class("grewByPartialFrames")
+			}
+			if n%2 == 1 {
+				// the grown header is offered to the pool: its capacity differs, so it must be refused
+				// (C15); whether or not it is, the pool must keep handing out buffers of its own shape
+				kit.Try(func() { pool.Put(h.buf) })
+				res.Class("grownHeaderOfferedToThePool")
+			}
 			// only the header that grew leaves the pool's capacity class; the other headers of
 			// the buffer (reslices from frame 0 taken earlier, or the original) still are what
 			// the pool handed out and may be used and put back
